@@ -45,6 +45,7 @@ def run(ctx) -> None:
     rep.rule("C19.R5", "node metadata read by validators cannot be stale after renames", floor=1)
     rep.rule("C19.R6", "strict type validation covers every value of every data edge", floor=3)
     rep.rule("C19.R7", "the shared-output check examines every unordered pair of producers", floor=2)
+    rep.rule("C19.R10", "validators quantify over all outputs of a node (emit names included): none narrows to data outputs", floor=12)
     rep.rule("C19.R9", "the Union rule of strict type checking decomposes a type into members only when that type is known to be a Union", floor=3)
     rep.rule("C19.R8", "gate-kind exhaustiveness: a test for one concrete gate class is either completed by its siblings or goes on to use something only that class has", floor=6)
 
@@ -235,6 +236,17 @@ def run(ctx) -> None:
     # ---- R8 ---------------------------------------------------------------------
     check_gate_kind_exhaustive(ctx, "C19.R8")
 
+    # ---- R10 --------------------------------------------------------------------
+    n10 = 0
+    for f in db.all_funcs():
+        if f.module.name not in ("hypergraph.graph.validation", "hypergraph.graph._conflict") or f.parent is not None:
+            continue
+        n10 += 1
+        narrow = [x for x in walk_local(f.node) if isinstance(x, ast.Attribute) and x.attr == "data_outputs"]
+        rep.add("C19.R10", f"{f.qname}:all-outputs", not narrow, f"{f.module.rel}:{narrow[0].lineno if narrow else f.lineno}", "no narrowing to data outputs" if not narrow else f"'{src(narrow[0])}' restricts a construction-time check to data outputs: the same mistake in an emit= name (illegal identifier, collision, conflict) is accepted")
+    if n10 < 12:
+        raise AnalysisError(f"only {n10} validator functions found")
+
     # ---- R9 ---------------------------------------------------------------------
     hu = db.func("_typing._handle_union_types")
     hcfg = ctx.cfg(hu)
@@ -402,6 +414,7 @@ def check_gate_kind_exhaustive(ctx, rule: str, modules: tuple[str, ...] = ("hype
 
 
 VARIANTS = [
+    Variant("identifier-check-data-outputs-only", VA, replace_once("        for output in node.outputs:\n            if not output.isidentifier():", "        for output in node.data_outputs:\n            if not output.isidentifier():"), {"C19.R10"}),
     Variant("union-rule-splits-generic", "src/hypergraph/_typing.py", replace_once("        return all(is_type_compatible(t, required_type, memo) for t in get_args(incoming_type))", "        required_args = get_args(required_type) or (required_type,)\n        return _all_types_compatible(get_args(incoming_type), required_args, memo)"), {"C19.R9"}),
     Variant("gate-targets-route-only", VA, chain(replace_once("    from hypergraph.nodes.gate import END, GateNode\n\n    for node in nodes.values():\n        if not isinstance(node, GateNode):\n            continue\n\n        for target in node.targets:", "    from hypergraph.nodes.gate import END, RouteNode\n\n    for node in nodes.values():\n        if not isinstance(node, RouteNode):\n            continue\n\n        for target in node.targets:")), {"C19.R8"}),
     Variant("twin-gate-targets-both-kinds", VA, chain(replace_once("    from hypergraph.nodes.gate import END, GateNode\n\n    for node in nodes.values():\n        if not isinstance(node, GateNode):\n            continue\n\n        for target in node.targets:", "    from hypergraph.nodes.gate import END, IfElseNode, RouteNode\n\n    for node in nodes.values():\n        if not isinstance(node, (RouteNode, IfElseNode)):\n            continue\n\n        for target in node.targets:")), set()),
